@@ -649,6 +649,13 @@ func (e *SEnv) fieldOf(base Val, name string) Val {
 	obj, path, _ := types.LookupFieldOrMethod(base.T, true, e.pkg(), name)
 	fv, ok := obj.(*types.Var)
 	if !ok || !fv.IsField() {
+		// specifications may read unexported fields of other packages
+		if pk := declaringPkg(base.T); pk != nil {
+			obj, path, _ = types.LookupFieldOrMethod(base.T, true, pk, name)
+			fv, ok = obj.(*types.Var)
+		}
+	}
+	if !ok || !fv.IsField() {
 		e.fail("%v has no field %s", base.T, name)
 	}
 	// walk the path accumulating offsets; only pointer fields on the way and
@@ -845,6 +852,22 @@ func (e *SEnv) call(x *SCall) Val {
 			key := "g.calls." + lab
 			vc.ensureKey(key, "Int")
 			return intVal(vc.get(e.cur, key))
+		case "last":
+			// last(Label): result of the most recent call counted under Label
+			lab := x.Args[0].(*SIdent).Name
+			t, ok := vc.lastType[lab]
+			if !ok {
+				e.fail("last(%s): no counted call seen", lab)
+			}
+			v := Val{T: t}
+			for i := range vc.p.lay.of(t).Kinds {
+				tm, ok := e.cur.v[fmt.Sprintf("g.last.%s:%d", lab, i)]
+				if !ok {
+					e.fail("last(%s): not available on every path to this point", lab)
+				}
+				v.S = append(v.S, tm)
+			}
+			return v
 		case "clock":
 			vc.ensureKey("g.clock", "Int")
 			return intVal(vc.get(e.cur, "g.clock"))
@@ -1148,4 +1171,15 @@ func (e *SEnv) getterEnsures(ct *Contract, res Val, args []Val, sig *types.Signa
 	for _, en := range ct.Ensures {
 		vc.assume(e.cur, env.evalBool(en.Expr))
 	}
+}
+
+func declaringPkg(t types.Type) *types.Package {
+	t = types.Unalias(t)
+	if p, ok := t.Underlying().(*types.Pointer); ok {
+		t = types.Unalias(p.Elem())
+	}
+	if n, ok := t.(*types.Named); ok && n.Obj() != nil {
+		return n.Obj().Pkg()
+	}
+	return nil
 }
